@@ -55,6 +55,9 @@ def run(sess: Session):
             ob.prop = PROP
             sess.check(ob)
     bounded(sess)
+    # what the loader does to element text (the str_wsnorm of the obligations): shared with C20 / C01
+    from contracts import C20 as _c20
+    _c20.normalize_space_bounded(sess)
     sess.level = 'proof'
     sess.explanation = ('write -> read -> validate == identity per element kind for all values (z3) over the A-XML '
                         'bridge; serialisation/parsing of special characters by the bounded sweep only')
